@@ -1619,6 +1619,13 @@ class Engine:
                     outs.append(e_state)
             post.events = merged
             self._havoc(post, names | tnames, incs, f"L{lid}'")
+            # a string built up by `s += piece` in every pass is the string before the loop followed by the pieces
+            normal = [e_state for e_state in ends if e_state.status in ("run", "continue")]
+            if len(normal) == 1 and len(ends) == 1:
+                for nm in names:
+                    before, after = pre.get(nm), normal[0].env.get(nm)
+                    if isinstance(before, S) and isinstance(after, S) and after.p and after.p[0] == ("str", ("sym", f"{nm}@L{lid}")):
+                        post.env[nm] = before + S((("join", "", ("comp", S(after.p[1:]), it, tv, lid)),))
             for nm in names:
                 # the counter facts relate the value after the loop to the value before it
                 if nm in incs and isinstance(pre.get(nm), Lin):
@@ -1741,8 +1748,13 @@ class Engine:
             return ("slice", base, idx[1], idx[2], idx[3])
         return ("elem", base, idx)
 
+    STR_METHODS = {".replace", ".rstrip", ".lstrip", ".strip", ".upper", ".lower", ".ljust", ".rjust", ".center", ".expandtabs", ".zfill", ".join", ".format"}
+
     def is_str(self, v):
-        return isinstance(v, S) or (isinstance(v, tuple) and v and v[0] == "sym" and v[1].split("@")[0] in self.strings)
+        if isinstance(v, S) or (isinstance(v, tuple) and v and v[0] == "sym" and v[1].split("@")[0] in self.strings):
+            return True
+        # a string method applied to a string gives a string
+        return isinstance(v, tuple) and v[:1] == ("op",) and v[1] in self.STR_METHODS and len(v[2]) >= 1 and self.is_str(v[2][0])
 
     def binop(self, op, a, b, st, node=None):
         if isinstance(op, ast.Add):
@@ -2006,6 +2018,22 @@ class Engine:
             self.assign(g.target, tv, sub, node)
             elt = self.ev(node.elt, sub)
             return ("comp", elt, it, tv, lid)
+        if isinstance(node, ast.DictComp) and len(node.generators) == 1 and not node.generators[0].ifs and not node.generators[0].is_async:
+            # {k: v for ...}: one store per pass, like `out[k] = v` in a loop
+            g = node.generators[0]
+            it = self.ev(g.iter, st)
+            self.loopseq += 1
+            lid = self.loopseq
+            sub = st.fork()
+            sub.loops = sub.loops + (lid,)
+            k = ("sym", f"<k>@L{lid}")
+            tv = self._iter_elem(it, k, sub, lid)
+            self.assign(g.target, tv, sub, node)
+            key, val = self.ev(node.key, sub), self.ev(node.value, sub)
+            res = ("dictcomp", lid)
+            self.seq += 1
+            st.events.append(Event("store", node, {"base": res, "index": key, "value": val, "name": None}, sub.facts, sub.loops, self.seq))
+            return res
         if isinstance(node, ast.Lambda):
             self.lambdas = getattr(self, "lambdas", {})
             self.lambdas[id(node)] = node
